@@ -487,6 +487,10 @@ def bounded_histories(tier, seed):
         if mode == 1:
             inner[rng.random(inner.shape) < 0.4] = -1
         elif mode == 2:
-            inner[:, 0] = -1  # an atom that never enters an inner site
+            # atoms that never enter an inner site, at any position among atoms whose inner state does change
+            inner[rng.random(inner.shape) < 0.3] = -1
+            cols = rng.random(N) < 0.5
+            cols[int(rng.integers(N))] = True
+            inner[:, cols] = -1
         one(states, inner)
     return st.result()
